@@ -299,7 +299,7 @@ def explore_sub(ctx, props, start=(0,), shifts=None, fams=None):
 
 def mc_cfg(consts, invariants, extra=""):
     return ("SPECIFICATION Spec\nVIEW view\nCONSTANTS\n" + "\n".join("  " + c for c in consts) +
-            "\nINVARIANTS " + " ".join(invariants) + "\nCHECK_DEADLOCK FALSE\n" + extra)
+            "\nINVARIANTS " + " ".join(invariants) + ("\nPROPERTY MonotoneCont" if "ResumeEqFresh" in invariants else "") + "\nCHECK_DEADLOCK FALSE\n" + extra)
 
 def msg_models(ctx, names, inv=("ResumeEqFresh", "StableM", "OffsSane", "Idempotent")):
     """Stream instances of the header-line / header-block / whole-message transcriptions (MC_Msg.tla)"""
